@@ -58,10 +58,10 @@ func ruleCtxProvenance() check.Rule {
 						c.Report(armed, key, s.Call.Pos(), "context-less %s inside a subscribe closure: the upstream is subscribed with context.Background() instead of the subscriber context", s.Method)
 					case s.CtxArg != nil:
 						if r := cp.classify(s.Pkg, s.CtxArg, s.Call, 0); r.ok && strings.Contains(r.why, "API-supplied context parameter") {
-						c.Report(armed, key, s.Call.Pos(), "the upstream is subscribed with a context the caller of the operator supplied (%s), not with one derived from the subscriber's: cancelling the subscription context no longer reaches the source", r.why)
-					} else {
-						report(armed, key, s.Call, r, "upstream subscription")
-					}
+							c.Report(armed, key, s.Call.Pos(), "the upstream is subscribed with a context the caller of the operator supplied (%s), not with one derived from the subscriber's: cancelling the subscription context no longer reaches the source", r.why)
+						} else {
+							report(armed, key, s.Call, r, "upstream subscription")
+						}
 					}
 				}
 				for _, e := range sc.Emits {
